@@ -515,6 +515,12 @@ func (ex *Executor) bitop(st *State, op token.Token, a, b *Term, ty types.Type) 
 func (ex *Executor) convert(st *State, v Val, from, to types.Type) Val {
 	switch {
 	case isInteger(from) && isInteger(to):
+		// widening conversions are exact: a value of the source type always fits
+		if flo, fhi, ok1 := typeRange(from); ok1 {
+			if tlo, thi, ok2 := typeRange(to); ok2 && flo.Cmp(tlo) >= 0 && fhi.Cmp(thi) <= 0 {
+				return Val{T: v.T, Ty: to}
+			}
+		}
 		return Val{T: wrapTo(v.T, to), Ty: to}
 	case isString(to) && !isString(from):
 		if isInteger(from) {
@@ -528,7 +534,7 @@ func (ex *Executor) convert(st *State, v Val, from, to types.Type) Val {
 		arr := st.newRef("bytes")
 		ln := strLen(v.T)
 		r := ex.mkSlice(st, arr, Num(0), ln, ln, to)
-		name := "E.Int.u8"
+		name := byteElems
 		e := st.heapGet(name, SAAII)
 		st.heapSet(name, Store(e, arr, App("str2bytes", SAII, v.T)))
 		return r
@@ -547,7 +553,7 @@ func (ex *Executor) convert(st *State, v Val, from, to types.Type) Val {
 
 // the content array of a slice as a term (for uninterpreted conversions)
 func (ex *Executor) sliceContent(st *State, id *Term) *Term {
-	e := st.heapGet("E.Int.u8", SAAII)
+	e := st.heapGet(byteElems, SAAII)
 	return App("slicecontent", SInt, Select(e, ex.sarr(id)), ex.soff(id), ex.slen(id))
 }
 
@@ -758,7 +764,52 @@ func (ex *Executor) execGo(st *State, fr *Frame, x *ssa.Go) bool {
 		ev.Args = append(ev.Args, ex.value(st, fr, a))
 	}
 	st.events = append(st.events, ev)
+	ex.forkRule(st, fr, x, fv)
 	return true
+}
+
+// forkRule: a spawned function starts in the state the spawner is in at the go statement, so its precondition
+// is an obligation of the spawner (captured variables are read at the spawn).
+func (ex *Executor) forkRule(st *State, fr *Frame, x *ssa.Go, fv Val) {
+	var fn *ssa.Function
+	var binds []Val
+	if sc := x.Call.StaticCallee(); sc != nil {
+		fn = sc
+	}
+	if fv.Fn != nil {
+		fn = fv.Fn.Fn
+		binds = fv.Fn.Bind
+	}
+	if fn == nil {
+		return
+	}
+	spec := ex.S.Funcs[funcKey(fn)]
+	if spec == nil || len(spec.Requires) == 0 {
+		return
+	}
+	env := &SpecEnv{ex: ex, st: st, vars: map[string]Val{}, pkgRel: spec.Pkg}
+	for i, v := range fn.FreeVars {
+		if i < len(binds) {
+			b := binds[i]
+			if b.Ty == nil {
+				b.Ty = v.Type()
+			}
+			env.vars[v.Name()] = ex.load(st, b)
+		}
+	}
+	for i, p := range fn.Params {
+		if i < len(x.Call.Args) {
+			env.vars[p.Name()] = ex.value(st, fr, x.Call.Args[i])
+		}
+	}
+	for i, c := range spec.Requires {
+		v, err := ex.evalSpec(c.Expr, env)
+		if err != nil {
+			ex.errf("%s: requires of spawned %s %q: %v", ex.unitKey, spec.Key, c.Text, err)
+			return
+		}
+		ex.addObl(st, "pre", fmt.Sprintf("go %s: %s", spec.Key, clauseLabel(c, i)), v.T, "precondition of the spawned goroutine "+spec.Key+": "+c.Text, c.Tags)
+	}
 }
 
 // capturedVals: go/ssa captures variables by address; in a `go` event the binding is shown as the value the
